@@ -116,4 +116,18 @@ EXTRA = [
     ("function f(){ var e1; try { throw 7 } catch (ex) { e1 = function(){ return ex } } return e1() } f()", 7),
     ("function f(p){ var g = function(){ return typeof p + ':' + p }; p = 5; return g() } f('s')", "number:5"),
     ("function f(){ var t = this; return (function(){ return typeof this })() } f()", "undefined"),
+    # a function whose own name is also declared inside it, among several other locals (the self-name slot is found by name)
+    ("function fact(n){ if (n <= 1) return 1; var r = n * fact(n - 1); if (r < 0) { var fact = null, lo, hi, acc, tmp; } return r } fact(5)", 120),
+    ("var g = function self(n){ var a1, a2, a3, a4, a5, a6; if (n == 0) return 0; if (n < 0) { var self = 1; } return 1 + self(n - 1) }; g(4)", 4),
+    ("function w(n, p1, p2){ var q1 = 1, q2 = 2, q3 = 3; function inner(){ return q1 + q2 + q3 } if (n > 2) { var w = 0; } return n == 0 ? inner() : w(n - 1) } w(2)", 6),
+    ("function many(a, b, c){ var v1 = a, v2 = b, v3 = c, v4 = a + b, v5 = b + c, v6 = a + c; var cl = function(){ return [v1, v2, v3, v4, v5, v6].join() }; return many.length + ':' + cl() } many(1, 2, 3)", "3:1,2,3,3,5,4"),
+    # calls with fewer and with MORE arguments than parameters: surplus arguments reach `arguments` only, never the locals
+    ("function f(a){ if (a) { var t = 1 } return t } [f(0, 7, 8), f(1, 7, 8)]", [None, 1]),
+    ("function f(a){ var u; var r = typeof u; u = a; return r + ':' + arguments.length } f(1, 2, 3)", "undefined:3"),
+    ("function mk(a){ var kept; var g = function(){ return kept }; return g } mk(0, 5, 6)()", None),
+    ("function f(a, b, c){ var x; return [a, b, c, x, arguments.length] } f(1)", [1, None, None, None, 1]),
+    ("function f(){ var x, y; return [x, y, arguments[0], arguments[1], arguments.length] } f(7, 8, 9)", [None, None, 7, 8, 3]),
+    ("var f = (a) => { var z; return [a, z] }; f(1, 2, 3)", [1, None]),
+    ("function F(a){ var hidden; this.v = [a, hidden] } new F(1, 2, 3).v", [1, None]),
+    ("function f(a){ var w; return [a, w] } [f.call(null, 1, 2, 3), f.apply(null, [4, 5, 6]), f.bind(null, 7, 8)(9)]", [[1, None], [4, None], [7, None]]),
 ]
